@@ -370,12 +370,12 @@ def run(ctx):
     fixed += big_number_cases()
     for fn, s in fixed:
         judge(ctx, fn, s, impl, terms, info)
-    ctx.sample({"fn": "duration", "input": "60 days", "value": impl["duration"]("60 days")})
-    ctx.sample({"fn": "size", "input": "1024 Ki", "value": impl["size"]("1024 Ki")})
-    ctx.sample({"fn": "date", "input": "2009-01-16", "value": impl["date"]("2009-01-16")})
+    ctx.sample({"fn": "duration", "input": "60 days", "value": call(impl["duration"], "60 days")})
+    ctx.sample({"fn": "size", "input": "1024 Ki", "value": call(impl["size"], "1024 Ki")})
+    ctx.sample({"fn": "date", "input": "2009-01-16", "value": call(impl["date"], "2009-01-16")})
 
     gens = {"duration": gen_duration, "size": gen_size, "date": gen_date}
-    n = ctx.n(450, 6000)
+    n = ctx.n(400, 6000)
     for fn in ("duration", "size", "date"):
         for malformed in (False, True):
             for i in range(n):
@@ -388,7 +388,7 @@ def run(ctx):
                 for d in range(0, 33):
                     judge(ctx, "date", "%04d-%02d-%02d" % (y, m, d), impl, terms, info)
 
-    bad = ctx.coq_check(IMPORTS, terms, preamble=PREAMBLE, tag="c48parse")
+    bad = [] if ctx.search else ctx.coq_check(IMPORTS, terms, preamble=PREAMBLE, tag="c48parse")   # searching: only the oracle matters
     for ix in bad:
         fn, s, got = info[ix]
         ctx.mismatch("model-vs-impl:parse_" + fn, "Coq model of parse_%s and the implementation differ on %r (implementation: %r)" % (fn, show(s), got),
@@ -467,7 +467,7 @@ def print_then_parse(ctx, impl):
                                     case={"fn": "print-parse", "size": s, "si": si}, expected=s, observed=back)
             else:
                 ctx.count("print-parse:same-value")
-    bad = ctx.coq_check(IMPORTS, terms, preamble=PREAMBLE, tag="c48space")
+    bad = [] if ctx.search else ctx.coq_check(IMPORTS, terms, preamble=PREAMBLE, tag="c48space")   # searching: only the oracle matters
     for ix in bad:
         s, si, text = info[ix]
         ctx.mismatch("model-vs-impl:abbreviate_space", "Coq model of abbreviate_space and the implementation differ on (%d, SI=%s): implementation prints %r" % (s, si, text),
@@ -575,6 +575,8 @@ def replay(ctx, rec):
         out["printed"] = text
         out["parsed_back"] = call(impl["size"], text)
         out["model_print"] = ctx.coq_eval(IMPORTS, "abbreviate_space %s %s" % (T.boolean(si), T.N(s)))[-300:]
-        if out["parsed_back"] != ("ok", s):
+        if not printer_oracle(s, si, text):
+            ctx.oracle_fail("abbreviate_space-wrong-text", "abbreviate_space(%d, SI=%s) = %r is not the size rounded to two decimals of its unit" % (s, si, text), case=case)
+        if fn == "print-parse" and out["parsed_back"] != ("ok", s):
             ctx.oracle_fail("print-parse-size-fraction-rejected" if s >= 1024 else "print-parse-size-differs", "printed %r parses back as %r" % (text, out["parsed_back"]), case=case)
     return out
